@@ -613,3 +613,19 @@ func containsSym(x value) bool {
 	}
 	return false
 }
+
+// concFloat32 concretises a symbolic float32 through its bit pattern,
+// trying values whose decimal expansion is not a short dyadic first.
+func (i *interpreter) concFloat32(x symv) uint64 {
+	if i.path == nil {
+		panic(unsupported{"symbolic float outside exploration"})
+	}
+	// bit pattern variable tied to the FP term
+	bv := mkVar(fmt.Sprintf("f32bits_%d", x.t.ID), bvSort(32))
+	i.path.assume(mkApp(sortBool, "=", mkApp(sortFP32, "(_ to_fp 8 24)", bv), x.t), "float32 bit pattern")
+	prefs := []uint64{}
+	for _, f := range []float32{0.1, 0.3, 42.42, -0.7, 1e-7, 3.4e38, 1.1, 0.5} {
+		prefs = append(prefs, uint64(math.Float32bits(f)))
+	}
+	return i.path.concretisePref(bv, "float32", prefs)
+}
